@@ -260,14 +260,24 @@ fn main() {
     let mut s3 = Stats::default();
     for family in ["standard", "calver"] { for variant in ["", "no-context", "context"] {
         let preset = if variant.is_empty() { family.to_string() } else { format!("{family}-{variant}") };
-        for dirty in [None, Some(false), Some(true)] { for distance in [None, Some(0u64), Some(1), Some(5)] { for pre in [None, Some(("alpha", Some(1u64))), Some(("rc", None))] { for post in [None, Some(0u64), Some(2)] { for dev in [None, Some(9u64)] {
+        for dirty in [None, Some(false), Some(true)] { for distance in [None, Some(0u64), Some(1), Some(5)] { for pre in [None, Some(("alpha", Some(1u64))), Some(("rc", None))] { for post in [None, Some(0u64), Some(2)] { for dev in [None, Some(9u64)] { for bystander in 0..6 {
             s3.inc("tier_cases");
-            let v = RVars { major: Some(1), minor: Some(2), patch: Some(3), dirty, distance, pre, post, dev, epoch: Some(1), bumped_branch: Some("main".into()), bumped_commit_hash: Some("gabcdef012".into()), bumped_timestamp: Some(1700000000), custom: json!({}), ..Default::default() };
+            let mut v = RVars { major: Some(1), minor: Some(2), patch: Some(3), dirty, distance, pre, post, dev, epoch: Some(1), bumped_branch: Some("main".into()), bumped_commit_hash: Some("gabcdef012".into()), bumped_timestamp: Some(1700000000), custom: json!({}), ..Default::default() };
+            // bystanders: the variables the tier must not depend on, in relations to one another that a git source produces
+            // (HEAD on the tagged commit: equal hashes / branches / times) or never produces (all unset, zeros, only last_* set)
+            match bystander {
+                1 => { v.last_commit_hash = v.bumped_commit_hash.clone(); v.last_branch = v.bumped_branch.clone(); v.last_timestamp = v.bumped_timestamp; }
+                2 => { v.bumped_commit_hash = None; v.bumped_branch = None; v.bumped_timestamp = None; v.epoch = None; }
+                3 => { v.last_commit_hash = Some("g0123456789".into()); v.last_branch = Some("release/1".into()); v.last_timestamp = Some(1600000000); v.major = Some(0); v.minor = Some(0); v.patch = Some(0); }
+                4 => { v.bumped_commit_hash = None; v.last_commit_hash = Some("gabcdef012".into()); v.last_timestamp = Some(1700000000); v.bumped_timestamp = None; v.custom = json!({"dirty": true, "distance": 9, "post": 7}); }
+                5 => { v.last_commit_hash = v.bumped_commit_hash.clone(); v.last_timestamp = Some(1700000001); v.bumped_branch = Some("".into()); }
+                _ => {}
+            }
             let (extra, with_ctx) = ren::smart_tier(&v, variant);
             let core = if family == "standard" { vec![V(RVar::Major), V(RVar::Minor), V(RVar::Patch)] } else { vec![V(RVar::Ts("YYYY".into())), V(RVar::Ts("MM".into())), V(RVar::Ts("DD".into())), V(RVar::Patch)] };
             let build = if with_ctx { vec![V(RVar::BumpedBranch), V(RVar::Distance), V(RVar::BumpedCommitHashShort)] } else { vec![] };
             let want = RSchema { core, extra_core: extra, build };
-            let key = format!("{preset} dirty={dirty:?} distance={distance:?} pre={pre:?} post={post:?} dev={dev:?}");
+            let key = format!("{preset} dirty={dirty:?} distance={distance:?} pre={pre:?} post={post:?} dev={dev:?} bystanders#{bystander}");
             let case = json!({"kind":"tier","key":key});
             let zv_vars = bind::vars(&v);
             match catch(|| ZervSchemaPreset::from_str(&preset).map(|p| p.schema_with_zerv(&zv_vars))) {
@@ -287,7 +297,7 @@ fn main() {
                     other => ctx.violation("smart_tier_cli_failed", format!("{key} [{fmt}]"), case.clone(), format!("{other:?}")),
                 }
             }
-        }}}}}
+        }}}}}}
     }}
 
     // CLI conformance slice: in-process From<Zerv> vs `zerv version --source stdin` (in-process CLI) vs real binary
